@@ -20,6 +20,12 @@ CHECKS = {
  'C18': dict(engine='E1-enum', technique='bounded-exhaustive metamorphic execution: hint under a rewriting configuration vs hand-rewritten hint under the default configuration, over hint terms x objects x draw residues x both configuration orders',
    text='For every enumerated hint over float/complex/overridden classes (all container families, unions, Annotated with validators and plain metadata, NewType/TypeVar over float, type[], tuples, generics; nesting <= 2, 3 thorough) and 9 rewriting configurations, the observations (is_bearable, die_if_unbearable incl. culprits, decorated param+return, decoration failures) must equal those of the term-level hand-rewritten hint under the default configuration for every object and draw residue; configuration lists are walked in both orders in separate processes; verdicts must be invariant under 5 violation_* settings.',
    note='Differential oracle (no expected values); hand-rewriting is done on hint terms, NewType/TypeVar over float are rewritten to the union itself.', ref='5/C18'),
+ 'C19': dict(engine='E1-enum', technique='exhaustive evaluation of the is_subhint relation on all ordered pairs of an enumerated hint set, closure check on all triples, soundness against a reference model and the implementation over an object universe',
+   text='The complete is_subhint matrix over ~420 enumerated hints is computed on the real code; reflexivity on the diagonal, transitivity on every triple (closure of the matrix), soundness of every true pair not involving Any against every universe object satisfying the left hint (reference model and is_bearable for all draw residues), and TypeHint identity / ==-hash-mutual-subhint / len-iter-getitem-contains-args coherence on every wrapper. Six families of inputs on which the unchanged tree violates the statement are listed as known findings; three defects were repaired.',
+   note='Pairs whose is_subhint raises are undecided and excluded; Callable hints are judged by callability only.', ref='5/C19'),
+ 'C20': dict(engine='E1-enum', technique='bounded-exhaustive enumeration of object terms (all carriers x all item tuples up to size 3, nested two to three levels, views, self-referential containers) through infer_hint and is_bearable for every draw residue',
+   text='For ~6000 (quick) enumerated objects is_bearable(obj, infer_hint(obj)) must be True for every residue of the sampler draw under the default inference; inference must return without foreign warnings or exceptions under both configurations; self-referential containers must terminate, with the recursion warning exactly when the cycle was reached. Four families of failing inputs on the unchanged tree are listed as known findings.',
+   note='Acceptance is asserted for the default linear-time inference only.', ref='5/C20'),
 }
 NOT_YET = {}
 for i in range(1, 21):
